@@ -614,25 +614,58 @@ func c13Unmarshal(c *Ctx) {
 	// cipher suites and curves filled by ascending index
 	for _, fld := range []string{"cipherSuites", "supportedCurves"} {
 		n := 0
+		// the list may be decoded by a helper whose result is stored into the field: then the fill sites are the helper's
+		scan := []*ssa.Function{um}
+		helperLists := map[ssa.Value]bool{}
 		for _, b := range um.Blocks {
 			for _, in := range b.Instrs {
-				s2, ok := in.(*ssa.Store)
+				st3, ok := in.(*ssa.Store)
 				if !ok {
 					continue
 				}
-				ia, ok := s2.Addr.(*ssa.IndexAddr)
-				if !ok {
+				fa3, ok := st3.Addr.(*ssa.FieldAddr)
+				if !ok || fieldNameOf(fa3) != fld {
 					continue
 				}
-				if _, ok := isFieldLoadNamed(ia.X, fld); !ok {
-					continue
+				v := st3.Val
+				if ex, isE := v.(*ssa.Extract); isE && ex.Index == 0 {
+					v = ex.Tuple
 				}
-				n++
-				idxOK := isAscendingIndex(ia.Index)
-				vs := Render(s2.Val)
-				// value must index the data by the same index: data[k+2*i] pattern
-				c.Check(idxOK, "ja3-wire-order", fld+" filled in order", p.InstrPos(s2), "m."+fld+"[i] for ascending i", "m."+fld+" is not filled by an ascending index: "+Render(ia.Index))
-				c.Check(strings.Contains(vs, "<< 8") && strings.Contains(vs, "|"), "ja3-wire-order", fld+" element decoding", p.InstrPos(s2), "big-endian 16-bit element", "element is not decoded as a big-endian 16-bit value: "+vs)
+				if hc, isC := v.(*ssa.Call); isC {
+					if hf := hc.Call.StaticCallee(); hf != nil && InRepo(hf) && hf.Blocks != nil {
+						scan = append(scan, hf)
+						for _, r := range Returns(hf) {
+							helperLists[Deref(RetVals(r)[0])] = true
+						}
+					}
+				}
+			}
+		}
+		for _, sf := range scan {
+			for _, b := range sf.Blocks {
+				for _, in := range b.Instrs {
+					s2, ok := in.(*ssa.Store)
+					if !ok {
+						continue
+					}
+					ia, ok := s2.Addr.(*ssa.IndexAddr)
+					if !ok {
+						continue
+					}
+					if sf == um {
+						if _, ok := isFieldLoadNamed(ia.X, fld); !ok {
+							continue
+						}
+					} else if !helperLists[Deref(ia.X)] {
+						continue
+					}
+					n++
+					idxOK := isAscendingIndex(ia.Index)
+					vs := Render(s2.Val)
+					// value must index the data by the same index: data[k+2*i] pattern
+					c.Check(idxOK, "ja3-wire-order", fld+" filled in order", p.InstrPos(s2), "m."+fld+"[i] for ascending i", "m."+fld+" is not filled by an ascending index: "+Render(ia.Index))
+					c.Check(strings.Contains(vs, "<< 8") && strings.Contains(vs, "|"), "ja3-wire-order", fld+" element decoding", p.InstrPos(s2), "big-endian 16-bit element", "element is not decoded as a big-endian 16-bit value: "+vs)
+				}
 			}
 		}
 		c.Check(n == 1, "ja3-wire-order", fld+" single fill site", p.Pos(um.Pos()), "", fmt.Sprintf("expected one indexed fill of m.%s, found %d", fld, n))
